@@ -78,6 +78,7 @@ type TermTable struct {
 	next  int
 	vars  []*Term
 	fresh map[string]int
+	linCache map[*Term]lin
 }
 
 func newTermTable() *TermTable {
@@ -230,6 +231,14 @@ func (tt *TermTable) Bin(op Op, a, b *Term) *Term {
 		return tt.Const(w, r)
 	}
 	// algebraic simplifications
+	if (op == OpAdd || op == OpSub) && w > 1 {
+		la := tt.linOf(a)
+		lb := tt.linOf(b)
+		if op == OpSub {
+			lb = lb.neg()
+		}
+		return tt.fromLin(w, la.plus(lb))
+	}
 	switch op {
 	case OpAdd:
 		if a.IsConst() && a.Val == 0 {
@@ -495,7 +504,153 @@ func (tt *TermTable) Neg(a *Term) *Term {
 	if a.IsConst() {
 		return tt.Const(a.W, -a.Val)
 	}
-	return tt.mk(OpNeg, a.W, a, nil, nil, 0, "")
+	return tt.fromLin(a.W, tt.linOf(a).neg())
+}
+
+// ---- linear normal form for +,-,neg,*const (mod 2^w)
+
+type linTerm struct {
+	t *Term
+	c uint64
+}
+
+type lin struct {
+	k  uint64
+	ts []linTerm // sorted by t.id, coefficients non-zero
+}
+
+func (l lin) neg() lin {
+	out := lin{k: -l.k, ts: make([]linTerm, len(l.ts))}
+	for i, x := range l.ts {
+		out.ts[i] = linTerm{x.t, -x.c}
+	}
+	return out
+}
+
+func (l lin) scale(c uint64) lin {
+	out := lin{k: l.k * c}
+	for _, x := range l.ts {
+		if x.c*c != 0 {
+			out.ts = append(out.ts, linTerm{x.t, x.c * c})
+		}
+	}
+	return out
+}
+
+func (a lin) plus(b lin) lin {
+	out := lin{k: a.k + b.k}
+	i, j := 0, 0
+	for i < len(a.ts) || j < len(b.ts) {
+		switch {
+		case j >= len(b.ts) || (i < len(a.ts) && a.ts[i].t.id < b.ts[j].t.id):
+			out.ts = append(out.ts, a.ts[i])
+			i++
+		case i >= len(a.ts) || b.ts[j].t.id < a.ts[i].t.id:
+			out.ts = append(out.ts, b.ts[j])
+			j++
+		default:
+			c := a.ts[i].c + b.ts[j].c
+			if c != 0 {
+				out.ts = append(out.ts, linTerm{a.ts[i].t, c})
+			}
+			i++
+			j++
+		}
+	}
+	return out
+}
+
+func (tt *TermTable) linOf(t *Term) lin {
+	if l, ok := tt.linCache[t]; ok {
+		return l
+	}
+	var l lin
+	switch t.Op {
+	case OpConst:
+		l = lin{k: t.Val}
+	case OpAdd:
+		l = tt.linOf(t.A).plus(tt.linOf(t.B))
+	case OpSub:
+		l = tt.linOf(t.A).plus(tt.linOf(t.B).neg())
+	case OpNeg:
+		l = tt.linOf(t.A).neg()
+	case OpMul:
+		if t.B.IsConst() {
+			l = tt.linOf(t.A).scale(t.B.Val)
+		} else {
+			l = lin{ts: []linTerm{{t, 1}}}
+		}
+	default:
+		l = lin{ts: []linTerm{{t, 1}}}
+	}
+	if tt.linCache == nil {
+		tt.linCache = make(map[*Term]lin)
+	}
+	tt.linCache[t] = l
+	return l
+}
+
+// fromLin builds the canonical term of a linear form of width w.
+func (tt *TermTable) fromLin(w int, l lin) *Term {
+	m := mask(w)
+	var acc *Term
+	var negs []linTerm
+	for _, x := range l.ts {
+		c := x.c & m
+		if c == 0 {
+			continue
+		}
+		if c == m { // -1
+			negs = append(negs, x)
+			continue
+		}
+		var p *Term
+		if c == 1 {
+			p = x.t
+		} else if sx(c, w) < 0 && sx(c, w) > -1024 {
+			negs = append(negs, x)
+			continue
+		} else {
+			p = tt.mk(OpMul, w, x.t, tt.Const(w, c), nil, 0, "")
+		}
+		if acc == nil {
+			acc = p
+		} else {
+			acc = tt.mk(OpAdd, w, acc, p, nil, 0, "")
+		}
+	}
+	k := l.k & m
+	if acc == nil {
+		acc = tt.Const(w, k)
+		k = 0
+	}
+	for _, x := range negs {
+		c := (-x.c) & m
+		p := x.t
+		if c != 1 {
+			p = tt.mk(OpMul, w, x.t, tt.Const(w, c), nil, 0, "")
+		}
+		if acc.IsConst() && acc.Val == 0 {
+			acc = tt.mk(OpNeg, w, p, nil, nil, 0, "")
+		} else {
+			acc = tt.mk(OpSub, w, acc, p, nil, 0, "")
+		}
+	}
+	if k != 0 {
+		if acc.IsConst() {
+			acc = tt.Const(w, acc.Val+k)
+		} else {
+			acc = tt.mk(OpAdd, w, acc, tt.Const(w, k), nil, 0, "")
+		}
+	}
+	res := acc
+	if tt.linCache == nil {
+		tt.linCache = make(map[*Term]lin)
+	}
+	if _, ok := tt.linCache[res]; !ok {
+		tt.linCache[res] = l
+	}
+	return res
 }
 
 func (tt *TermTable) Concat(a, b *Term) *Term {
@@ -579,13 +734,9 @@ func (tt *TermTable) Extract(a *Term, hi, lo int) *Term {
 			return tt.Extract(a.A, hi, lo)
 		}
 	case OpAnd, OpOr, OpXor:
-		if lo == 0 || true {
+		if a.A.Op == OpConst || a.B.Op == OpConst || a.A.Op == OpConcat || a.B.Op == OpConcat {
 			// bitwise ops distribute over extract
 			return tt.Bin(a.Op, tt.Extract(a.A, hi, lo), tt.Extract(a.B, hi, lo))
-		}
-	case OpAdd, OpSub, OpMul:
-		if lo == 0 {
-			return tt.Bin(a.Op, tt.Extract(a.A, hi, 0), tt.Extract(a.B, hi, 0))
 		}
 	case OpIte:
 		if a.B.IsConst() || a.C.IsConst() {
@@ -673,6 +824,29 @@ func (tt *TermTable) Cmp(op Op, a, b *Term) *Term {
 			return tt.Bool(true)
 		default:
 			return tt.Bool(false)
+		}
+	}
+	if op == OpEq && a.W > 1 && (isLinOp(a) || isLinOp(b)) {
+		d := tt.linOf(a).plus(tt.linOf(b).neg())
+		if len(d.ts) == 0 {
+			return tt.Bool(d.k&mask(a.W) == 0)
+		}
+		// move negative coefficients to the right-hand side
+		var pos, neg lin
+		for _, x := range d.ts {
+			if sx(x.c&mask(a.W), a.W) < 0 {
+				neg.ts = append(neg.ts, linTerm{x.t, -x.c})
+			} else {
+				pos.ts = append(pos.ts, x)
+			}
+		}
+		neg.k = -d.k
+		na, nb := tt.fromLin(a.W, pos), tt.fromLin(a.W, neg)
+		if !(isLinOp(na) || isLinOp(nb)) || (na != a && na != b) {
+			a, b = na, nb
+			if a.IsConst() && b.IsConst() {
+				return tt.Bool(a.Val == b.Val)
+			}
 		}
 	}
 	if op == OpEq {
@@ -897,4 +1071,14 @@ func (t *Term) eval(m map[string]uint64, memo map[*Term]uint64) uint64 {
 	}
 	memo[t] = r
 	return r
+}
+
+func isLinOp(t *Term) bool {
+	switch t.Op {
+	case OpAdd, OpSub, OpNeg:
+		return true
+	case OpMul:
+		return t.B.IsConst()
+	}
+	return false
 }
